@@ -89,6 +89,9 @@ type FnExec struct {
 	phiEdges      map[*ssa.BasicBlock][]phiEdge
 	ifaceType     map[Term]types.Type // interface value term -> pointee type of the boxed pointer
 	curArgTypes   []types.Type
+	clauseErr     string // error met while evaluating the clause about to be asserted / assumed
+	evalDepth     int
+	warns         []string
 	owned         map[Term]bool
 	cbInfo        map[*ssa.Function]*cbState
 	curInstr      ssa.Instruction
@@ -108,6 +111,11 @@ func (fe *FnExec) declare(name, sort string) Term {
 }
 
 func (fe *FnExec) assume(t Term, why string) {
+	if fe.clauseErr != "" {
+		// a clause that cannot be evaluated is not assumed (sound: fewer facts)
+		fe.clauseErr = ""
+		return
+	}
 	if t == "true" {
 		return
 	}
@@ -115,6 +123,12 @@ func (fe *FnExec) assume(t Term, why string) {
 }
 
 func (fe *FnExec) oblige(fr *frame, label string, props []string, pc, goal Term, pos token.Pos, note string) {
+	if fe.clauseErr != "" {
+		// a clause that cannot be evaluated against the current code fails (closed), as this obligation only
+		goal = "false"
+		note = "CANNOT BE EVALUATED: " + fe.clauseErr + " | " + note
+		fe.clauseErr = ""
+	}
 	if fe.quiet {
 		return
 	}
